@@ -49,6 +49,7 @@ GVN = P.verify(fn(
         ('other_aliases_kept', "all(implies(old(has(%s.Aliases, s)), has(%s.Aliases, s) and (s == result or same(%s.Aliases[s], old(%s.Aliases[s])))) for s in strings())" % (MODEL, MODEL, MODEL, MODEL)),
         ('only_the_alias_table_written', "heap_unchanged_except('tyof', 'dh.S.TR_SE', 'dv.S.TR_SE', 'dk', 'len.S', 'el.S')"),
         ('only_this_models_alias_table_written', "old_objects_unchanged_except_dict(%s.Aliases)" % MODEL),
+        ('alias_key_order_list_is_new_or_kept', 'fresh(keys(%s.Aliases)) or keys(%s.Aliases) is old(keys(%s.Aliases))' % (MODEL, MODEL, MODEL)),
     ],
     raises=[RaisesSpec('KeyError', when='not has(self.EquationBlock.Equations, varname)', iff=True, ensures=[('nothing_written', "heap_unchanged_except('tyof')")]),
             RaisesSpec('ValueError', when="has(self.EquationBlock.Equations, varname) and self.FullCode != '' and ('__' in self.FullCode or '__' in varname)", iff=True,
